@@ -114,7 +114,9 @@ func (h *Handler) modifyResponse(r *http.Response) error {
 	case "":
 		log.Debug("No content encoding header found")
 	default:
+		// The body cannot be decoded, so it must not be parsed and rewritten either.
 		h.log.Warn(unsupportedContentEncoding, slog.String("encoding", r.Header.Get("Content-Encoding")))
+		return nil
 	}
 
 	// Read the encoded body.
